@@ -142,3 +142,29 @@ Example C03_uvs_of_a_missing_glyph_is_dropped :
   uvs_table glyphset m src = [] /\ has_uvs_subtable glyphset m src = false.
 Proof. exact uvs_v0_stored_a_missing_glyph. Qed.
 Print Assumptions C03_uvs_of_a_missing_glyph_is_dropped.
+
+(* ---- the same statements about the code AS TRANSLATED from /repo's current source (Generated/Imp.v: the variation-sequence loop
+   of BaseOutlineCompiler.setupTable_cmap; Order/UvsTied.v proves the translation equal to the model when no selector repeats) ---- *)
+From U2F Require Import Order.UvsTied.
+
+Theorem C03_translated_uvs_loop_is_the_model : forall gs m (src : uvs_src),
+  NoDup (map fst src) -> tr_uvs gs m src = uvs_table gs m src.
+Proof. exact translated_uvs_is_the_model. Qed.
+Print Assumptions C03_translated_uvs_loop_is_the_model.
+
+Theorem C03_code_uvs_sound : forall gs m src vs l x,
+  NoDup (map fst src) -> In (vs, l) (tr_uvs gs m src) -> In x l ->
+  exists seqs e, In (vs, seqs) src /\ In e seqs /\ mem (snd e) gs = true /\ fst x = fst e /\
+                 (snd x = None <-> zassoc (fst e) m = Some (snd e)) /\ (forall g, snd x = Some g -> g = snd e).
+Proof. exact code_uvs_sound. Qed.
+Print Assumptions C03_code_uvs_sound.
+
+Theorem C03_code_uvs_complete : forall gs m src vs seqs e,
+  NoDup (map fst src) -> In (vs, seqs) src -> In e seqs -> mem (snd e) gs = true ->
+  exists l x, In (vs, l) (tr_uvs gs m src) /\ In x l /\ fst x = fst e.
+Proof. exact code_uvs_complete. Qed.
+Print Assumptions C03_code_uvs_complete.
+
+Theorem C03_code_uvs_no_empty_selector : forall gs m src vs, NoDup (map fst src) -> ~ In (vs, []) (tr_uvs gs m src).
+Proof. exact code_uvs_no_empty_selector. Qed.
+Print Assumptions C03_code_uvs_no_empty_selector.
